@@ -16,12 +16,13 @@ namespace GambitV.Py
 
 /-- exception classes the translated sources can raise or catch -/
 inductive Exc
-  | ValueError | TypeError | IndexError | KeyError | AttributeError | AssertionError | Other
+  | ValueError | TypeError | IndexError | KeyError | AttributeError | AssertionError | RuntimeError | Other
   deriving DecidableEq, Repr, Inhabited
 
 def Exc.name : Exc → String
   | .ValueError => "ValueError" | .TypeError => "TypeError" | .IndexError => "IndexError"
   | .KeyError => "KeyError" | .AttributeError => "AttributeError" | .AssertionError => "AssertionError"
+  | .RuntimeError => "RuntimeError"
   | .Other => "Exception"
 
 /-- outcome of a translated function -/
@@ -131,6 +132,20 @@ def enumerate {α : Type} (xs : List α) : List (Int × α) := enumerateFrom 0 x
 def dictAppend {κ ν : Type} [BEq κ] : List (κ × List ν) → κ → ν → List (κ × List ν)
   | [], k, v => [(k, [v])]
   | (k', vs) :: rest, k, v => if k' == k then (k', vs ++ [v]) :: rest else (k', vs) :: dictAppend rest k v
+
+/-- `d[k]` / `d.get(k)` -/
+def dictGet? {κ ν : Type} [BEq κ] : List (κ × ν) → κ → Option ν
+  | [], _ => none
+  | (k', v) :: rest, k => if k' == k then some v else dictGet? rest k
+
+/-- `d[k] = v` on an insertion-ordered dict: an existing key keeps its position and takes the new value -/
+def dictSet {κ ν : Type} [BEq κ] : List (κ × ν) → κ → ν → List (κ × ν)
+  | [], k, v => [(k, v)]
+  | (k', v') :: rest, k, v => if k' == k then (k', v) :: rest else (k', v') :: dictSet rest k v
+
+/-- `{b: a for a, b in pairs}`-style comprehension: later pairs overwrite earlier ones with the same key -/
+def dictFromPairs {κ ν : Type} [BEq κ] (ps : List (κ × ν)) : List (κ × ν) :=
+  ps.foldl (fun d p => dictSet d p.1 p.2) []
 
 /-- CPython `bytes.find(pat, start, end)`, bounds adjusted as `ADJUST_INDICES` does; `-1` = not found -/
 def bytesFind (hay pat : List UInt8) (start : Int) (stop : Option Int) : Int :=
